@@ -180,9 +180,9 @@ func individuallyAdmissible(w *refalloc.World, svc *v1.Service, ip net.IP) (bool
 			return false, false
 		}
 	case "auto":
-		if p := w.Pool(owners[0]); p != nil && !refalloc.AutoAssign(p) {
-			return true, true // admissible but the statement does not say it must be kept: ambiguous
-		}
+		// a pool with auto-assignment disabled hands out nothing NEW to such a service (C02), but an address the service
+		// already holds there is still inside the pool and admitted by it: switching auto-assignment off revokes nothing
+		_ = refalloc.AutoAssign
 	}
 	return true, false
 }
@@ -877,6 +877,36 @@ func runAlloc(t *testing.T, prop string) {
 				o := &allocOracle{prop: prop, res: res, u: u, thorough: c.Thorough, menus: c.Menus}
 				b := &verifrt.BFS{New: func() verifrt.System { return newCtlSys(u) }, Before: o.before, After: o.after, Res: res, ChoiceKinds: []string{"maporder"}}
 				b.Replay(c.History)
+				if os.Getenv("VERIF_SETTLE_DEBUG") != "" {
+					// debugging aid: explore deliveries only from the end of the history and print the graph
+					type node struct {
+						h []verifrt.Event
+					}
+					seen := map[string]int{}
+					var q []node
+					q = append(q, node{c.History})
+					for len(q) > 0 && len(seen) < 200 {
+						n := q[0]
+						q = q[1:]
+						bb := &verifrt.BFS{New: func() verifrt.System { return newCtlSys(u) }}
+						sys := bb.Replay(n.h).(*ctlSys)
+						k := sys.Key()
+						if _, ok := seen[k]; ok {
+							continue
+						}
+						seen[k] = len(seen)
+						fmt.Fprintf(os.Stderr, "STATE %d quiescent=%v svcQ=%v poolQ=%v len=%d\n", seen[k], sys.quiescent(), sys.svcQ.Keys(), sys.poolQ.Keys(), len(n.h))
+						for _, e := range sys.Enabled() {
+							if e.User || e.Fault {
+								continue
+							}
+							nh := append(append([]verifrt.Event{}, n.h...), e)
+							s2 := bb.Replay(nh).(*ctlSys)
+							fmt.Fprintf(os.Stderr, "  --%s--> key-seen=%v quiescent=%v\n", e.String(), seen[s2.Key()], s2.quiescent())
+							q = append(q, node{nh})
+						}
+					}
+				}
 			}
 		}
 		res.Replayed = true
